@@ -16,6 +16,13 @@
 #undef VBI_ERR_RAW_BUFFER_OVERFLOW
 #include "src/dvb_demux.c"
 
+/* Harness groups (big static objects cost symex time in every harness of the file): G_PK = h_mux_packets with the
+ * 70 KB demultiplexer object; everything else needs no big object.  None given = all. */
+#if !defined(G_PK) && !defined(G_SL) && !defined(G_MX)
+#define G_PK
+#define G_SL
+#define G_MX
+#endif
 #ifndef NL
 #define NL 2
 #endif
@@ -363,19 +370,18 @@ static vbi_bool rec_cb(vbi_dvb_mux *mx, void *ud, const uint8_t *packet, unsigne
  * CLEAR(*mx) on the malloc'ed object leaves mx->pid etc. non-constant for symex, so both the PES and the TS output path
  * were explored (mux_packets: no verdict in 400 s).  h_mux_ctor decides that the real constructors produce exactly this
  * state (every field, first 50 packet bytes). */
-static uint8_t small_packet[2][4 + PMAX];
-static struct _vbi_dvb_mux MXS[2];
-static unsigned mxs_used;
+static uint8_t small_packet_a[4 + PMAX], small_packet_b[4 + PMAX];
+static struct _vbi_dvb_mux MXS_A, MXS_B;
+static int mxs_slot;            /* 0 / 1: set (to a constant) by the harness before a second multiplexer is made */
 
 static vbi_dvb_mux *construct_mux(unsigned pid, int ts, vbi_dvb_mux_cb *cb, void *ud)
 {
   static const struct _vbi_dvb_mux zero_mux;
-  vbi_dvb_mux *mx = &MXS[mxs_used & 1];
+  vbi_dvb_mux *mx;
   if (ts && (pid <= 0x000F || pid >= 0x1FFF)) return NULL;
-  *mx = zero_mux;
+  if (mxs_slot == 0) { mx = &MXS_A; *mx = zero_mux; mx->packet = small_packet_a; }
+  else { mx = &MXS_B; *mx = zero_mux; mx->packet = small_packet_b; }
   mx->min_packet_size = 184; mx->max_packet_size = 65504; mx->data_identifier = 0x10;
-  mx->packet = small_packet[mxs_used & 1];
-  mxs_used++;
   init_pes_packet_header(mx);
   mx->callback = cb; mx->user_data = ud;
   if (ts) mx->pid = pid;
@@ -476,6 +482,7 @@ static unsigned gather_pes(unsigned from, unsigned ncalls, unsigned pid, unsigne
   return ncalls * 184;
 }
 
+#ifdef G_PK
 /* ---- the real demultiplexer object for the end-to-end run: static zero object + real vbi_dvb_demux_reset() (R7),
  * R2(e): frame output array and (PES mode) wrap-around buffer re-pointed to exact-size harness arrays; in TS mode the
  * unit is compiled with pes_buffer scaled to PESCAP_SCALED bytes (runner patch, SCALED_PES_BUFFER). */
@@ -561,6 +568,11 @@ V_HARNESS(h_mux_packets)
    * (line 7 of frame 2 is not above the last line of frame 1) with its PTS; frame 2 is pending with its PTS */
   setup_demux(pid);
   V_ASSERT(vbi_dvb_demux_feed(&RDX, rec, rec_len), "e2e_demux_feed_ok");
+  /* FRAME: members of the 70 KB object that must stay untouched (CBMC checks member indices only against the end of the
+   * enclosing object): `sliced` (frame array re-pointed), in PES mode also ts_buffer; tix = universally quantified index */
+  V_ASSERT(((const uint8_t *) RDX.sliced)[tix % sizeof RDX.sliced] == 0, "e2e_frame_canary_behind_ts_buffer");
+  if (!TS) V_ASSERT(RDX.ts_buffer[tix % sizeof RDX.ts_buffer] == 0, "e2e_frame_unused_ts_buffer");
+  V_ASSERT(RDX.frame.sp >= ROUT && RDX.frame.sp <= ROUT + ROUTN, "e2e_frame_sp_in_array");
   if (ok1 && nacc > 0) {
     V_ASSERT(RLOG.calls == 1, "e2e_one_frame_delivered");
     V_ASSERT(RLOG.n == nacc, "e2e_same_number_of_lines");
@@ -571,11 +583,15 @@ V_HARNESS(h_mux_packets)
   } else {
     V_ASSERT(RLOG.calls == 0, "e2e_no_frame_from_rejected_input");
   }
-  V_ASSERT(!RDX.new_frame && RDX.frame.sp == ROUT + 1 && RDX.frame_pts == PTS33(pts2), "e2e_second_frame_pending_with_pts");
-  check_demuxed(&ROUT[0], &sl2[0], K_TTX);
+  if (!TS || ok1) {   /* a lone TS packet (188 bytes) is not examined before the sync byte of the next one is seen (197 byte look-ahead) */
+    V_ASSERT(!RDX.new_frame && RDX.frame.sp == ROUT + 1 && RDX.frame_pts == PTS33(pts2), "e2e_second_frame_pending_with_pts");
+    check_demuxed(&ROUT[0], &sl2[0], K_TTX);
+  }
 #endif
   V_END();
 }
+
+#endif /* G_PK */
 
 /* (c) rejected frame: zero bytes, multiplexer state unchanged (every field compared) at an arbitrary continuity counter */
 V_HARNESS(h_mux_reject_state)
@@ -620,6 +636,7 @@ V_HARNESS(h_mux_cor_equiv)
   good = frame_model(sl, mask, FIXED, &total);
   V_ASSERT(ok == (good && total <= PMAX - 46), "accepted_iff_legal_and_fits");
 
+  mxs_slot = 1;
   mx2 = new_mux_cb(pid, di, NULL, NULL);
   s = sl; sleft = NL;
   for (it = 0; it < RECMAX / OBUF + 2 && sleft > 0 && ok2; it++) {
